@@ -123,8 +123,8 @@ example : (findInBatchesW [1, 2, 4, 5, 8, 9, 13] [⟨false, fun k => k != 4⟩, 
 /-- F7 (witness replayed on the real code): six rows, `Order("name")` with names descending in the key,
     batch 2: the key cursor under a non-key ordering delivers ids `[6 5] [6]` — row 6 twice, rows 1–4 never. -/
 theorem C15_batches_user_order_counterexample :
-    (findInBatchesW [1, 2, 3, 4, 5, 6] [] [⟨fun k => 7 - (k : Int), false⟩] none 2 8).batches = [[6, 5], [6]]
-    ∧ findAllW [1, 2, 3, 4, 5, 6] [] [⟨fun k => 7 - (k : Int), false⟩] none = [6, 5, 4, 3, 2, 1] := by
+    (findInBatchesW [1, 2, 3, 4, 5, 6] [] [{ key := fun k => 7 - (k : Int), desc := false }] none 2 8).batches = [[6, 5], [6]]
+    ∧ findAllW [1, 2, 3, 4, 5, 6] [] [{ key := fun k => 7 - (k : Int), desc := false }] none = [6, 5, 4, 3, 2, 1] := by
   decide
 
 /-- F7c (witness replayed on the real code): `Limit(0)`: Find returns nothing, FindInBatches everything. -/
@@ -307,7 +307,7 @@ theorem C15_rows_affected (tbl : List Nat) (c : Chain) :
 /-- non-vacuity of the read-path theorems: WHERE `k ≥ 2 OR k = 1 AND k ≠ 1`, user order by `k % 2` descending -/
 example :
     let c : Chain := { units := [⟨false, fun k => decide (2 ≤ k)⟩, ⟨true, fun k => k == 1⟩, ⟨false, fun k => k != 1⟩],
-                       order := [⟨fun k => ((k % 2 : Nat) : Int), true⟩] }
+                       order := [{ key := fun k => ((k % 2 : Nat) : Int), desc := true }] }
     (c.find [1, 2, 3, 4, 5]).rows = [3, 5, 2, 4] ∧ (c.first [1, 2, 3, 4, 5]).rows = [3]
     ∧ (c.last [1, 2, 3, 4, 5]).rows = [5] ∧ c.count [1, 2, 3, 4, 5] = 4 := by decide
 
